@@ -37,6 +37,8 @@ TARGETS = {
     "alias_vec": {"type": "array", "items": {"type": "string"}},
     # the target definition carries a title that does not sanitise to its key: settings name definitions by KEY
     "struct_titled": {"title": "A titled target", "type": "object", "properties": {"marker_d": INT}, "required": ["marker_d"]},
+    # the target definition carries vendor keywords (x-*): they say nothing about which definition it is
+    "struct_vendor": {"type": "object", "properties": {"marker_d": INT}, "required": ["marker_d"], "x-go-name": "Stamp", "x-internal": True},
 }
 TITLED_NAME = "ATitledTarget"
 
@@ -96,7 +98,9 @@ def document(kind):
         for sub in defs[k]["oneOf"]:
             if sub.get("type") == "object":
                 sub["additionalProperties"] = False
-    if kind == "struct":
+    # a member declared in BOTH operands of an allOf: once as the reference, once by a schema that narrows nothing (annotations only)
+    defs["UAllOfProp"] = {"allOf": [obj({"at": D, "id": INT}, ["at"]), obj({"at": {"description": "declared again; narrows nothing"}})]}
+    if kind in ("struct", "struct_vendor"):
         defs["UAllOf"] = {"allOf": [D, obj({"z": INT})]}
     return {"definitions": defs}
 
@@ -139,7 +143,7 @@ def cases(tier, seed):
                 if {"replace", "patch"} <= set(combo) or {"convert", "convert_annot"} <= set(combo) or {"map_btree", "map_vmap"} <= set(combo):
                     continue
                 combos.append(combo)
-        if kind == "struct_titled":
+        if kind in ("struct_titled", "struct_vendor"):
             combos = [(), ("replace",), ("replace", "derive"), ("derive",), ("replace", "map_btree"), ("replace", "builder")]
         for combo in combos:
             c = {"kind": kind, "features": list(combo), "doc": document(kind), "settings": settings_for(combo)}
@@ -326,6 +330,9 @@ def execute(cases_, tier, seed):
                     want = re.sub(r"\b(Tgt|%s)\b" % TITLED_NAME, REPL, bt).replace("::std::collections::HashMap", mp)
                     if t != want:
                         probs.append("%s.%s: type %s, expected %s" % (i, m, t, want))
+            at = {(i, m): t for (i, m, t) in fts}.get(("UAllOfProp", "at"))
+            if at != REPL:
+                probs.append("UAllOfProp.at (declared as the reference in one allOf operand and by an annotation-only schema in the other): type %s, expected %s" % (at, REPL))
             if "UAllOf" in items and not any(f["name"] == "marker_d" for f in items["UAllOf"]["body"]["fields"]):
                 probs.append("UAllOf lost the merged member marker_d (allOf members are merged structurally)")
         conv_sites = {("Ind", "cs"): "::std::option::Option<{C}>", ("Ind", "cv"): "::std::vec::Vec<{C}>", ("Ind", "cm"): "{M}<::std::string::String,{C}>",
@@ -440,7 +447,7 @@ def execute(cases_, tier, seed):
     res.evaluations = res.transitions
     res.extra.update({"behavioural_type_probes": len(placed)})
     res.samples = [{"id": c["id"], "settings": c["settings"]} for c in cases_[:: max(1, len(cases_) // 5)]][:5]
-    res.bound = "tier=%s: %d target kinds x all assignments of %d settings features with <=%d on; 11 use sites per document; %d behaviourally probed types" % (
+    res.bound = "tier=%s: %d target kinds x all assignments of %d settings features with <=%d on; 12 use sites per document; %d behaviourally probed types" % (
         tier, len(TARGETS), len(FEATURES), 1 if tier == "quick" else 3, len(PROBED)) + (" (k<=2 for the struct target)" if tier == "quick" else "")
     res.assumptions = ["replacement/conversion/map target types live in verif_support::ext and meet exactly the documented requirements"]
     if not res.violations and (len(cases_) > 10 and len(vectors) < 20):   # a subject that breaks everything is reported through its violations, not as vacuity
